@@ -47,6 +47,15 @@ def _parse(case, obs):
 def _judge(op, exp, o):
     """None if observation o of operation op meets expectation exp, else a reason."""
     name = OPNAME.get(op[0], op[0])
+    if isinstance(o, list) and len(o) == 3 and o[0] == "again":
+        # the runner evaluates every call twice on the same schema instance (all the other calls of the case in between)
+        # and reports (again FIRST SECOND) where an error is involved and the two differ
+        def _p(x):
+            return _path_text(_segs(x[2])) if isinstance(x, list) and len(x) == 3 and x[0] == "err" else _show(x, 200)
+        want = "accepted" if exp == "ok" else "a constraint error with the path %s" % _path_text(_segs(exp[3:]))
+        return ("%s of the SAME value gives different answers within one process: the first evaluation returned %s, the second "
+                "(after the other calls of this case) %s; the property demands %s each time - the error of a rejection must not "
+                "depend on earlier rejections - value %s" % (name, _p(o[1]), _p(o[2]), want, _show(op[1])))
     if exp == "ok":
         if isinstance(o, list) and o and o[0] == "ok":
             return None
